@@ -42,6 +42,35 @@ theorem unrelated_irrelevant (A B cp : List String)
     · exact absurd h (hB k hk)
   · rintro ⟨k, hk, hm⟩; exact ⟨k, hk, mem_append.mpr (Or.inl hm)⟩
 
+/-- acceptance depends on the accepted *set* only: neither the order in which `accept_module` was called
+nor accepting a package twice matters -/
+theorem set_only (A B cp : List String) (hAB : ∀ a, a ∈ A ↔ a ∈ B) :
+    isAuthorizedPath A cp = isAuthorizedPath B cp := by
+  rw [Bool.eq_iff_iff]
+  exact ⟨monotone A B cp (fun a h => (hAB a).mp h), monotone B A cp (fun a h => (hAB a).mpr h)⟩
+
+/-- accepting a package a second time, at any later moment, changes nothing -/
+theorem accept_twice (A B : List String) (m : String) (cp : List String) :
+    isAuthorizedPath (A ++ [m] ++ B ++ [m]) cp = isAuthorizedPath (A ++ [m] ++ B) cp :=
+  set_only _ _ cp (fun a => by simp only [mem_append, mem_singleton]; grind)
+
+/-- the order of two `accept_module` calls is irrelevant -/
+theorem accept_order (A : List String) (m n : String) (cp : List String) :
+    isAuthorizedPath (A ++ [m] ++ [n]) cp = isAuthorizedPath (A ++ [n] ++ [m]) cp :=
+  set_only _ _ cp (fun a => by simp only [mem_append, mem_singleton]; grind)
+
+/-- a late `accept_module` authorises exactly what it adds: a path that was refused and is accepted after
+accepting `m` has `m` as one of its dotted prefixes -/
+theorem late_accept_exact (A : List String) (m : String) (cp : List String)
+    (h0 : isAuthorizedPath A cp = false) (h1 : isAuthorizedPath (A ++ [m]) cp = true) :
+    ∃ k, k ≤ cp.length ∧ dotted (cp.take k) = m := by
+  rw [prefix_iff] at h1
+  obtain ⟨k, hk, hm⟩ := h1
+  rcases mem_append.mp hm with h | h
+  · have : isAuthorizedPath A cp = true := (prefix_iff A cp).mpr ⟨k, hk, h⟩
+    rw [h0] at this; cases this
+  · exact ⟨k, hk, by simpa using h⟩
+
 /-- non-vacuity: depth 4, accepted at depth 4, with the three built-in entries only (the case the
 code as originally written got wrong) -/
 example : isAuthorizedPath ["dds", "__main__", "__global__", "p.q.r.s"] ["p", "q", "r", "s", "f"] = true := by
